@@ -49,6 +49,13 @@ class World(object):
         cfg_ = gamma.Config.draw(rng, ndims=3, payload="tame")
         sgn = (sc["origin"] > 0) - (sc["origin"] < 0)
         cfg_.origin = tuple(0.0 if sgn == 0 else sgn * abs(rng.choice([0.3, 1.1, 2.0, 0.05, 7.7])) for _ in range(3))
+        if cfgseed % 4 == 0:
+            # a domain placed so that the cell centres of the FINEST level are whole numbers (cell sizes 1, 2, 1 there, lower
+            # corner half a cell below a whole number): a user then naturally types the point as integers
+            dxf = [(1.0, 2.0, 1.0), (2.0, 1.0, 1.0), (1.0, 1.0, 2.0)][(cfgseed // 4) % 3]
+            nl = len(sc["mesh"])
+            cfg_.dx0 = tuple(x * 2 ** (nl - 1) for x in dxf)
+            cfg_.origin = tuple(sgn * 4.0 - x / 2 for x in dxf)
         lat = lattice.Lattice(sc["mesh"], sc["n1"], sc["n2"], axes=axes, ext0=[3, 4, 5][cfgseed % 3], ext_cut=(cfgseed // 3) % 2 == 1)
         ap = lat.ap("A", FIELDS, files_of=lambda lv, b: rng.randint(1, 2), shuffle=lambda lv, f, v: rng.sample(v, len(v)))
         flds = lattice.Fields(lat, cfgseed, payload="tame")
@@ -85,6 +92,9 @@ def run_scenario(chk, world, sc, cfgseed, axes, sel):
         idx = [0, 0, 0]
         idx[a1], idx[a2], idx[a3] = q["cell"][0], q["cell"][1], kz
         point = [cfg_.origin[d] + dx[d] * (idx[d] + 0.5) for d in range(3)]
+        if all(float(x).is_integer() for x in point) and (cfgseed + qi) % 3 != 2:
+            # whole-number coordinates typed as integers (python int, or numpy integers)
+            point = [int(x) for x in point] if (cfgseed + qi) % 3 == 0 else [np.int64(x) for x in point]
         try:
             with shims.pool_shim(shims.Scheduler()), core.quiet():
                 got = probe(*point)
